@@ -281,6 +281,9 @@ def val_diff(a, b):
 STORED = ('df', 'gf', 'sample', 'target')     # the object's own working copies of the caller's frame
 
 
+CDIAG_SEQ = [-1]
+
+
 def state_diffs(sa, sb):
     """differing public attributes of two pubstate dicts: (results, latent).  `latent` = differences confined to the object's
     own working frame (scratch columns such as _ipfw_); they are not results and not the caller's data"""
@@ -1530,7 +1533,13 @@ def run_ops(fam, case, ops, watch=True):
                 kind = 'a raising' if err else 'the'
                 out['problems'].append(('%s.%s.changes-state' % (fam.name, m), '%s call %d (%s) changed the public attribute %s' % (kind, i, m, d[0])))
             for x in lat:
-                out['latent'].add('%s.%s writes the object\'s working frame (%s)' % (fam.name, m, x[:120]))
+                if op[0] == 'diag' and ': column ' in x and err is None:
+                    # a display / diagnostic that REWRITES a column the estimator had stored before the call (new scratch columns
+                    # are 'columns .. vs ..'): every later diagnostic and weight read-out is then history-dependent
+                    out['problems'].append(('%s.%s.rewrites-stored-column' % (fam.name, m), 'call %d (%s) changed values the estimator had '
+                                            'stored in its working frame: %s' % (i, m, x[:160])))
+                else:
+                    out['latent'].add('%s.%s writes the object\'s working frame (%s)' % (fam.name, m, x[:120]))
     return out
 
 
@@ -2060,15 +2069,19 @@ def function_table():
         df['w'] = np.round(np.random.RandomState(rng.randrange(2 ** 31)).uniform(0.5, 3, len(df)), 4)
         df['p'] = np.round(np.random.RandomState(rng.randrange(2 ** 31)).uniform(0.1, 0.9, len(df)), 4)
         inp = {'df': df}
-        which = rng.choice(['positivity', 'smd', 'plot_kde', 'plot_boxplot', 'plot_love', 'accuracy'])
+        CDIAG_SEQ[0] += 1          # every helper and both scales in turn, not at random
+        which, ms0 = [('plot_kde', 'logit'), ('positivity', None), ('smd', None), ('plot_kde', 'probability'), ('plot_love', None),
+                      ('accuracy', None), ('plot_boxplot', 'logit'), ('plot_boxplot', 'probability')][CDIAG_SEQ[0] % 8]
         if which == 'positivity':
             return inp, lambda: cu.positivity(inp['df'], 'w')
         if which == 'smd':
             return inp, lambda: cu.standardized_mean_differences(inp['df'], 'A', 'w', 'W0 + C0 + C(C1)')
-        if which == 'plot_kde':
-            return inp, lambda: cu.plot_kde(inp['df'], 'A', 'p')
+        if which == 'plot_kde':        # both documented scales, other documented display options
+            ms = ms0
+            return inp, lambda: cu.plot_kde(inp['df'], 'A', 'p', measure=ms, bw_method=rng.choice(['scott', 'silverman']), fill=rng.random() < 0.5)
         if which == 'plot_boxplot':
-            return inp, lambda: cu.plot_boxplot(inp['df'], 'A', 'p')
+            ms = ms0
+            return inp, lambda: cu.plot_boxplot(inp['df'], 'A', 'p', measure=ms)
         if which == 'plot_love':
             return inp, lambda: cu.plot_love(inp['df'], 'A', 'w', 'W0 + C0')
         return inp, lambda: (cu.outcome_accuracy(inp['df']['Y'], inp['df']['p']), cu.plot_kde_accuracy(inp['df']['Y'] - inp['df']['p']))
